@@ -46,7 +46,7 @@ class Contract:
         for x, d in zip(a.kwonlyargs, a.kw_defaults):
             if d is not None:
                 self.defaults[x.arg] = d
-        self.all_props = set(props)
+        self.all_props = set(props) | set(opts.get('site_props') or [])
         for n in ast.walk(node):
             if isinstance(n, ast.keyword) and n.arg == 'props':
                 try:
